@@ -25,6 +25,10 @@ impl PingOnDrop {
         ensures *r == self.handle(),
 //@ enditem
 //@ close
+//@ region channel_mustcall_specs props=C04
+/// the event has been handed to the channel's callback
+pub uninterp spec fn w_event_delivered<T>(e: Event<T>) -> bool;
+//@ endregion
 //@ region channel_sender_specs props=C04
 impl<T> Sender<T> {
     /// the eventfd this sender wakes (ghost)
@@ -102,10 +106,12 @@ fn drain_closure<C: FnMut(Event<T>, &mut ())>(capacity: usize, receiver: &mpsc::
             Event::Msg(v) => w_received(receiver, v),
             Event::Closed => w_disconnected(receiver),
         },
+        // (must-call device) a call of the callback leaves the witness "delivered" (see the loop invariant)
+        forall|e: Event<T>, m: &mut ()| #[trigger] call_ensures(callback, (e, m), ()) ==> w_event_delivered(e),
     ensures
         // r.0 = clear_readiness: the queue was seen empty; r.1 = disconnected: every sender is gone
         r.0 ==> w_empty(receiver),
-        r.1 ==> w_disconnected(receiver),
+        r.1 ==> w_disconnected(receiver) && w_event_delivered(Event::<T>::Closed),
         !(r.0 && r.1),
         // C02/C04: each wake-up makes at least one attempt -- also for a rendezvous channel (capacity 0); if neither flag
         // is set the batch limit was hit with messages still flowing (the caller must re-arm itself)
@@ -113,19 +119,27 @@ fn drain_closure<C: FnMut(Event<T>, &mut ())>(capacity: usize, receiver: &mpsc::
 //@ entry
     let mut clear_readiness = false;
     let mut disconnected = false;
+    let ghost mut got: Seq<T> = Seq::empty();
+//@ before <<callback(Event::Msg(val), &mut ())>>
+                        proof { got = got.push(val); }
 //@ loop 1
         invariant_except_break
             !clear_readiness, !disconnected,
             lit.index@ > 0 ==> exists|v: T| #[trigger] w_received(receiver, v),
         invariant
             max >= 1, may_recv(receiver),
+            forall|e: Event<T>, m: &mut ()| #[trigger] call_ensures(callback, (e, m), ()) ==> w_event_delivered(e),
+            // C04 (must-call side): every message taken out of the queue has been handed to the callback (a received message
+            // is never dropped), and Closed has been delivered before `disconnected` is reported
+            forall|i: int| 0 <= i < got.len() ==> w_event_delivered(Event::Msg(#[trigger] got[i])),
+            disconnected ==> w_event_delivered(Event::<T>::Closed),
             forall|e: Event<T>, m: &mut ()| #[trigger] call_requires(callback, (e, m)) <==> match e {
                 Event::Msg(v) => w_received(receiver, v),
                 Event::Closed => w_disconnected(receiver),
             },
         ensures
             clear_readiness ==> w_empty(receiver),
-            disconnected ==> w_disconnected(receiver),
+            disconnected ==> w_disconnected(receiver) && w_event_delivered(Event::<T>::Closed),
             !(clear_readiness && disconnected),
             clear_readiness || disconnected || exists|v: T| #[trigger] w_received(receiver, v),
 //@ rw R14 1 <<for _ in 0..max>> => <<for _i in lit: 0..max>>
